@@ -166,6 +166,13 @@ def writeHandshake (data : Bytes) (maxPayload : Nat) : TxResult :=
       .frags ((fragmentize body (maxPayload - 12)).map fun f =>
         header typ body.length seq f.off f.len ++ f.body)
 
+/-- `writeHandshakeRecord` with its transcript argument: `transcript.Write(data)` runs on the
+marshalled, unfragmented `data` BEFORE the message is split (regenerated facts
+`txTranscriptArg`, `txTranscriptBeforeSplit`), so the first component is what the sender
+hashes, whatever the second component turns out to be. -/
+def writeHandshakeT (data : Bytes) (maxPayload : Nat) : Bytes × TxResult :=
+  (data, writeHandshake data maxPayload)
+
 /-! ### receiver: the fragment branch of `readHandshake` -/
 
 /-- one handshake (fragment) message as `readHandshake` slices it from `handBuf`:
@@ -238,6 +245,16 @@ inductive Result where
   /-- input exhausted (the real call blocks / times out) -/
   | needMore
 deriving Repr, DecidableEq
+
+/-- the sender's output as framed messages: the whole message when it fits one record,
+otherwise one message per fragment of `fragmentize` (all with the message's type, length and
+`message_seq`) — the structured reading of `writeHandshake (header … ++ body) maxPayload` -/
+def txMsgs (typ seq : Nat) (body : Bytes) (maxPayload : Nat) : List FragMsg :=
+  if 12 + body.length ≤ maxPayload then [⟨typ, body.length, seq, 0, body.length, body⟩]
+  else (fragmentize body (maxPayload - 12)).map fun f => ⟨typ, body.length, seq, f.off, f.len, f.body⟩
+
+/-- wire bytes of a framed message -/
+def FragMsg.encode (m : FragMsg) : Bytes := header m.typ m.total m.seq m.off m.len ++ m.payload
 
 /-- `readHandshake` over already framed fragment messages. `fuel` = `maxHandshakeFragments`:
 the loop body runs at most that many times, the next iteration fails. -/
